@@ -67,6 +67,36 @@ def _not_a_recorded_time(raw):
     return None
 
 
+def _client_time_in(model, e):
+    """what in the bound values of usage statement `e` derives from client
+    activity (None if nothing does)"""
+    from ..terms import walk
+    from ..events import each_event
+    stmts = getattr(model, "_stmt_by_site", None)
+    if stmts is None:
+        stmts = {}
+        for _p, x, _l in each_event(model, model.runtime_entries(), ("sql",)):
+            stmts[x["site"][:2]] = x
+        model._stmt_by_site = stmts
+    for col, v in sorted(e["binds"]["set"].items()):
+        for x in walk(v):
+            if not isinstance(x, tuple) or not x:
+                continue
+            if x[0] == "call" and x[1] == "time.time" and len(x) >= 5 and \
+                    "websocket" in str(x[4][0]):
+                return "in `%s` the clock read at the arrival of a client message" % col
+            if x[0] in ("row", "rows", "cursor") and len(x) >= 2 and isinstance(x[1], tuple):
+                src = stmts.get(x[1][:2])
+                if src is not None and src["db"] == "chan" and not all(
+                        c == "COUNT()" for c in src["stmt"].cols):
+                    return "in `%s` data read from the channel database (%s)" % (
+                        col, src["stmt"].normalized()[:60])
+            if x[0] == "param" or (x[0] == "attr" and isinstance(x[2], str) and
+                                   x[2] in ("server_rx",)):
+                return "in `%s` a value handed in by a caller (%s)" % (col, show(x)[:40])
+    return None
+
+
 def run(ctx):
     model = ctx.model
     interp = model.interp
@@ -154,9 +184,16 @@ def run(ctx):
                 tbl = e["stmt"].table
                 if tbl in SINK_COLS or tbl == "current":
                     continue
-                ctx.ob("R16.sinks", "unknown usage table written: %s" % construct_of(e),
-                       False, e, "a usage record outside the enumerated sinks; its "
-                       "timestamp columns are not known to be blurred")
+                # a further usage table is fine as long as nothing it stores is
+                # (derived from) a client-activity time: the clock read when a
+                # client message arrives, or anything a channel row holds other
+                # than a COUNT
+                why = _client_time_in(model, e)
+                ctx.ob("R16.sinks", "further usage table written: %s" % construct_of(e),
+                       why is None, e, "no bound value derives from a client arrival time "
+                       "or from stored channel data" if why is None else
+                       "a usage record outside the enumerated sinks stores %s, which is not "
+                       "known to be blurred" % why)
     # R16.plumb
     shared.r_plumb(ctx)
     for o in ctx.obligations:
@@ -167,9 +204,22 @@ def run(ctx):
     opt = ctx.repo.method("Options", "opt_blur_usage")
     ok = False
     if opt is not None:
+        # locals that hold int(...) (the conversion may be validated before it
+        # is stored)
+        int_names = set()
+        other = set()
+        for n in ast.walk(opt.node):
+            if isinstance(n, ast.Assign) and len(n.targets) == 1 and \
+                    isinstance(n.targets[0], ast.Name):
+                if isinstance(n.value, ast.Call) and dotted(n.value.func) == "int":
+                    int_names.add(n.targets[0].id)
+                else:
+                    other.add(n.targets[0].id)
+        int_names -= other
         for n in ast.walk(opt.node):
             if isinstance(n, ast.Assign) and isinstance(n.targets[0], ast.Subscript) and \
-                    isinstance(n.value, ast.Call) and dotted(n.value.func) == "int":
+                    ((isinstance(n.value, ast.Call) and dotted(n.value.func) == "int") or
+                     (isinstance(n.value, ast.Name) and n.value.id in int_names)):
                 k = n.targets[0].slice
                 if isinstance(k, ast.Constant) and k.value == "blur-usage":
                     ok = True
